@@ -46,10 +46,14 @@ class C09(Prop):
                 arr["attrs_py"] = {"units": "m"}
             names = [a["name"] for a in arr["axes"]]
             ax = rng.choice([["name", names[d]], ["pos", d], ["pos", d - rank]])
+            gen.dtype_variants(rng, arr)      # unsigned / narrow label dtypes, float32 / int32 values, Fortran order
             r = rng.random()
             if r < 0.25:
-                yield {"op": "cum", "array": arr, "fn": rng.choice(["cumsum", "cumprod"]),
-                       "axis": ax if rng.random() < 0.8 else "default"}
+                axc = ax if rng.random() < 0.8 else "default"
+                if rank >= 2 and rng.random() < 0.25:
+                    # a tuple of dimensions in any order: accumulated along the grouped dimension, in the listed order
+                    axc = ["many", [["name", x] for x in rng.sample(names, 2)]]
+                yield {"op": "cum", "array": arr, "fn": rng.choice(["cumsum", "cumprod"]), "axis": axc}
             elif r < 0.65:
                 yield {"op": "diff", "array": arr, "axis": ax if rng.random() < 0.85 else "default", "n": rng.choice([1, 1, 2, 3]),
                        "scheme": rng.choice(["backward", "forward", "centered"]), "keepaxis": rng.random() < 0.4}
@@ -69,7 +73,10 @@ class C09(Prop):
             for i in range(0, flat.size - 1, 2):
                 if not (flat.dtype.kind == "f" and (math.isnan(flat[i]) or math.isnan(flat[i + 1]))):
                     flat[i + 1] = flat[i]
-            a = DimArray(flat.reshape(v.shape), axes=[ax.copy() for ax in a.axes])
+            v2 = flat.reshape(v.shape)
+            if c["array"].get("order") == "F" and v2.ndim >= 2:
+                v2 = np.asfortranarray(v2)
+            a = DimArray(v2, axes=[ax.copy() for ax in a.axes])
             a.attrs.update(core.build_array(c["array"], 0).attrs)
         return a
 
@@ -195,7 +202,25 @@ class C09(Prop):
                     bad.append("outcome")
                 elif io["err"] != lean["err"]:
                     bad.append("M.errclass")
-            if "ok" in io:
+            if "ok" in io and c["axis"] != "default" and c["axis"][0] == "many":
+                # a tuple of dimensions: the listed dimensions grouped (in the listed order) in front, accumulated along
+                # the grouped dimension - straight from NumPy, independently of flatten
+                got = io["ok"]
+                listed = [k[1] for k in c["axis"][1]]
+                rest = [d for d in a.dims if d not in listed]
+                perm = [a.dims.index(d) for d in listed + rest]
+                v = vals.transpose(perm)
+                v = v.reshape((-1,) + v.shape[len(listed):])
+                with warnings.catch_warnings():
+                    warnings.simplefilter("ignore")
+                    want = scan(v, axis=0)
+                if got["dims"] != [",".join(listed)] + rest:
+                    prop_bad.append("dims:grouped")
+                elif [fl(core_val(x)) for x in got["values"]] != [fl(x) for x in np.asarray(want, dtype=float).reshape(-1)]:
+                    prop_bad.append("values:numpy")
+                if got["attrs"] != io["input"]["attrs"]:
+                    prop_bad.append("attrs")
+            elif "ok" in io:
                 pos = (a.ndim - 1) if c["axis"] == "default" else (a.dims.index(c["axis"][1]) if c["axis"][0] == "name" else c["axis"][1] % a.ndim)
                 got = io["ok"]
                 with warnings.catch_warnings():
